@@ -1,0 +1,54 @@
+//go:build verif
+
+// Contracts for the command-line package (kvc). Comment-only file.
+package main
+
+//@ -- ------------------------------------------------------------------ file safety (C19)
+//@ -- History variables (ghostlocal) record what the calls made so far returned;
+//@ -- the call-site assertions (atcall) state what must be true when a file is
+//@ -- opened for writing or a source file is removed.
+
+//@ func openOutputFile
+//@   mode int
+//@   props C19
+//@   panics true                                                                  #panics-not-claimed
+//@   ghostlocal sameFileChecked bool = false
+//@   ghostlocal sameFile bool = false
+//@   ghostlocal statFailed bool = false
+//@   ghostlocal isStdin bool = false
+//@   aftercall os.SameFile set sameFileChecked = true
+//@   aftercall os.SameFile set sameFile = result
+//@   aftercall os.Stat set statFailed = statFailed || result1 != nil
+//@   aftercall strings.EqualFold set isStdin = result
+//@   atcall os.OpenFile arg1 == 577 ==> !sameFile && (sameFileChecked || statFailed || isStdin)      #never-truncates-its-own-input
+//@   atcall os.OpenFile !overwrite ==> arg1 == 193                                #no-force-means-exclusive-create
+//@   atcall os.OpenFile overwrite ==> arg1 == 577                                 #force-truncates
+//@   modifies nothing
+
+//@ func (*fileDecompressTask) call
+//@   mode int
+//@   props C19
+//@   opt callees abstract
+//@   opt defers skipped
+//@   panics true                                                                  #panics-not-claimed
+//@   ghostlocal wfail bool = false
+//@   ghostlocal closedOK bool = false
+//@   aftercall io.Writer.Write set wfail = wfail || result1 != nil
+//@   aftercall io.Reader).Close set closedOK = result == nil
+//@   atcall os.Remove !wfail && closedOK                                          #source-removed-only-after-complete-output
+//@   loop 1 invariant !wfail && !closedOK
+//@   loop 2 invariant !wfail && !closedOK
+
+//@ func (*fileCompressTask) call
+//@   mode int
+//@   props C19
+//@   opt callees abstract
+//@   opt defers skipped
+//@   panics true                                                                  #panics-not-claimed
+//@   ghostlocal wfail bool = false
+//@   ghostlocal closedOK bool = false
+//@   aftercall io.Writer).Write set wfail = wfail || result1 != nil
+//@   aftercall io.Writer).Close set closedOK = result == nil
+//@   atcall os.Remove !wfail && closedOK                                          #source-removed-only-after-complete-output
+//@   loop 1 invariant !wfail && !closedOK
+//@   loop 2 invariant !wfail && !closedOK
